@@ -47,6 +47,8 @@ inline int asl_verif_atomicInc(int volatile* x) { asl_verif_point(ASL_VP_ATOMIC,
 inline int asl_verif_atomicDec(int volatile* x) { asl_verif_point(ASL_VP_ATOMIC, (const void*)x); return atomicDec(x); }
 #define atomicInc asl_verif_atomicInc
 #define atomicDec asl_verif_atomicDec
+inline int asl_verif_atomicGet(const volatile int* x) { asl_verif_point(ASL_VP_ATOMIC_READ, (const void*)x); return atomicGet(x); }
+#define atomicGet asl_verif_atomicGet
 #endif
 
 namespace asl {
